@@ -320,12 +320,16 @@ class Condition:
             res = self._sleeping_count.acquire(False)
             assert res
 
-        if self._sleeping_count.acquire(False):  # try grabbing a sleeper
+        while self._sleeping_count.acquire(False):  # try grabbing a sleeper
             self._wait_semaphore.release()  # wake up one sleeper
-            self._woken_count.acquire()  # wait for the sleeper to wake
+            self._woken_count.acquire()  # wait for a sleeper to wake
 
-            # rezero _wait_semaphore in case a timeout just happened
-            self._wait_semaphore.acquire(False)
+            # rezero _wait_semaphore in case a timeout just happened. If the
+            # token is still there, the waiter that just left had timed out and
+            # nobody has been notified yet: try again with the next sleeper
+            # instead of losing the notification.
+            if not self._wait_semaphore.acquire(False):
+                break
 
     def notify_all(self):
         assert self._lock._semlock._is_mine(), "lock is not owned"
